@@ -7,6 +7,7 @@ Mirrors, in the elk tree (after fix commits 7e4e807 and e18b419):
                      address; find-or-insert), `opCloseUpvalues(lastToClose)`, `push/pop`,
                      `getLocalValue/setLocalValue`, `getUpvalueValue/setUpvalueValue`,
                      `callBytecodeClosure`, `callBytecodeFunction` (+ its growth check),
+                     `callBytecodeFunctionTCO` (after d86f559: closes the frame's upvalues first),
                      `createCurrentCallFrame`, `restoreLastFrame`, `growValueStack`.
 
 Three machines over the same operation alphabet `Op`:
@@ -55,6 +56,7 @@ inductive Op where
   | fset (j : Nat) (v : Val)       -- SET_UPVALUE j
   | callc (argc : Nat) (ks : List Nat)   -- `callBytecodeClosure`, closure.Upvalues = handles ks
   | callm (argc : Nat)             -- `callBytecodeFunction` (keeps `vm.upvalues`; growth check)
+  | tcall (argc : Nat)             -- `callBytecodeFunctionTCO`: the running frame is reused
   | ret                            -- `restoreLastFrame`
   | grow                           -- `growValueStack`
 deriving Repr, DecidableEq, Inhabited
@@ -205,6 +207,15 @@ def step (c : C) : Op → Except Err (C × Option Val)
     if n + 1 ≤ c.stack.length then
       .ok ({ c with frames := ⟨c.fp, c.upvalues⟩ :: c.frames, fp := c.stack.length - (n + 1) }, none)
     else .error .oob
+  | .tcall n =>
+    -- close the frame's upvalues, move receiver and arguments down to `fp`, drop the rest
+    if c.fp + (n + 1) ≤ c.stack.length then
+      match closeLoop c.stack c.fp c.heap c.openL with
+      | .ok (h, l) =>
+        .ok ({ c with stack := c.stack.take c.fp ++ c.stack.drop (c.stack.length - (n + 1)),
+                      heap := h, openL := l }, none)
+      | .error e => .error e
+    else .error .oob
   | .ret =>
     match c.frames with
     | [] => .error .noframe
@@ -220,6 +231,15 @@ def step (c : C) : Op → Except Err (C × Option Val)
           | .error e => .error e
         else .error .oob
   | .grow => .ok (c, none)
+
+/-- `callBytecodeFunctionTCO` as it was before d86f559: the frame's slots are overwritten while
+upvalues are still open on them. All other operations as in `step`. -/
+def stepPreTCO (c : C) : Op → Except Err (C × Option Val)
+  | .tcall n =>
+    if c.fp + (n + 1) ≤ c.stack.length then
+      .ok ({ c with stack := c.stack.take c.fp ++ c.stack.drop (c.stack.length - (n + 1)) }, none)
+    else .error .oob
+  | op => step c op
 
 /-- run an operation list, collecting the values read -/
 def run (stp : σ → Op → Except Err (σ × Option Val)) (s : σ) : List Op → Except Err (σ × List Val)
@@ -335,6 +355,16 @@ def stepA (a : A) : Op → Except Err (A × Option Val)
   | .callm n =>
     if n + 1 ≤ a.stack.length then
       .ok ({ a with frames := ⟨a.fp, a.upvalues⟩ :: a.frames, fp := a.stack.length - (n + 1) }, none)
+    else .error .oob
+  | .tcall n =>
+    -- the caller's variables leave the stack; receiver and arguments become the callee's
+    -- variables (fresh cells)
+    if a.fp + (n + 1) ≤ a.stack.length then
+      match readAll a.cells (a.stack.drop (a.stack.length - (n + 1))) with
+      | some vs =>
+        .ok ({ a with cells := a.cells ++ vs,
+                      stack := a.stack.take a.fp ++ List.range' a.cells.length vs.length }, none)
+      | none => .error .corrupt
     else .error .oob
   | .ret =>
     match a.frames with
@@ -517,6 +547,15 @@ def growBuggy (s : CA) (nb : Int) : CA :=
            stale := s.stale.map (fun f => { f with fp := rebasePtrBuggy s nb f.fp }),
            heap := h2, fp := rebasePtr s nb s.fp, sp := rebasePtr s nb s.sp }
 
+/-- `for i := range localCount { *fpAdd(i) = *spAdd(-localCount + i) }`: slot by slot, in
+increasing order, reading the array as it is at that moment -/
+def copyLoop (dst src : Nat) : Nat → Nat → List Val → Except Err (List Val)
+  | 0, _, mem => .ok mem
+  | k + 1, i, mem =>
+    match mem[src + i]? with
+    | some v => if dst + i < mem.length then copyLoop dst src k (i + 1) (mem.set (dst + i) v) else .error .oob
+    | none => .error .oob
+
 /-- `growValueStack` including its size check -/
 def growChecked (cfg : Cfg) (s : CA) : Except Err CA :=
   if 2 * s.mem.length ≥ cfg.maxSize then .error .max else .ok (grow s (cfg.alloc s))
@@ -605,6 +644,20 @@ def stepCA (cfg : Cfg) (s : CA) : Op → Except Err (CA × Option Val)
         | .error e => .error e
       else .ok (s', none)
     | none => .error .oob
+  | .tcall n =>
+    -- `opCloseUpvalues(fp)`; copy receiver and arguments down to `fp`; `popN(vm.localCount)` where
+    -- `localCount` is the rest of the frame (what the compiler guarantees at a tail-call site)
+    match s.slot? s.fp, s.slot? (s.sp - VS * (n + 1)) with
+    | some fpi, some src =>
+      if fpi ≤ src then
+        match closeLoopA s s.fp s.heap s.openL with
+        | .ok (h, l) =>
+          match copyLoop fpi src (n + 1) 0 s.mem with
+          | .ok m => .ok ({ s with mem := m, sp := s.fp + VS * (n + 1), heap := h, openL := l }, none)
+          | .error e => .error e
+        | .error e => .error e
+      else .error .oob
+    | _, _ => .error .oob
   | .ret =>
     -- `returnValue = peek(); opCloseUpvalues(fp); popN(…); restore; *sp[-1] = returnValue`
     match s.frames with
